@@ -296,26 +296,38 @@ def listAnswer (t : Tree) (pfx delim startAfter : Option Bytes) (maxKeys : Optio
 
 /-! ## `complete_multipart_upload`: the listed parts -/
 
-/-- the validation loop (nothing is changed yet): part numbers `1, 2, 3, …` [`InvalidRequest`], every listed part file
-    exists [`InvalidPart`]; the listed parts with their contents, in list order -/
-def completeParts (id : Nat) (parts : List ((Nat × Int) × Bytes)) : List (Option Int) → Nat → Except Err (List (Int × Bytes))
-  | [], _ => .ok []
-  | pn :: rest, cnt =>
-    match pn with
-    | none => .error .InvalidRequest
-    | some n =>
-      let cnt := cnt + 1
-      if n ≠ (cnt : Int) then .error .InvalidRequest
-      else match alLookup (id, n) parts with
-        | none => .error .InvalidPart
-        | some c =>
-          match completeParts id parts rest cnt with
-          | .error e => .error e
-          | .ok ps => .ok ((n, c) :: ps)
+/-- first pass of the validation (nothing is changed yet): the number of every listed part; `none` = a part without a
+    number [`MalformedXML`] -/
+def partNumbers : List (Option Int) → Option (List Int)
+  | [] => some []
+  | none :: _ => none
+  | some n :: rest =>
+    match partNumbers rest with
+    | none => none
+    | some ns => some (n :: ns)
 
-/-- the size rule: `part_number != total_parts_cnt && size < 5 MiB` for some listed part -/
-def partTooSmall (total : Nat) (ps : List (Int × Bytes)) : Bool :=
-  ps.any fun p => decide (p.1 ≠ (total : Int)) && decide (p.2.length < minPartSize)
+/-- second pass: `numbers.windows(2).any(|w| w[0] >= w[1])` — the numbers are not strictly ascending [`InvalidPartOrder`];
+    gaps are allowed (fa59617) -/
+def outOfOrder : List Int → Bool
+  | a :: b :: t => decide (a ≥ b) || outOfOrder (b :: t)
+  | _ => false
+
+/-- third pass: the part file of every listed number, in list order, with its content; `none` = one of them does not
+    exist [`InvalidPart`] -/
+def partFiles (id : Nat) (parts : List ((Nat × Int) × Bytes)) : List Int → Option (List (Int × Bytes))
+  | [] => some []
+  | n :: rest =>
+    match alLookup (id, n) parts with
+    | none => none
+    | some c =>
+      match partFiles id parts rest with
+      | none => none
+      | some ps => some ((n, c) :: ps)
+
+/-- fourth pass, the size rule: `parts.split_last()` — a part other than the last listed one is below 5 MiB -/
+def partTooSmall : List (Int × Bytes) → Bool
+  | a :: b :: t => decide (a.2.length < minPartSize) || partTooSmall (b :: t)
+  | _ => false
 
 /-- the part files of the listed parts removed (after the object is in place) -/
 def eraseParts (id : Nat) (ns : List Int) (parts : List ((Nat × Int) × Bytes)) : List ((Nat × Int) × Bytes) :=
@@ -635,8 +647,10 @@ def step (H : Hashes) (dirLen : Nat) (s : State) : Op → State × Resp
         let ps := s.parts.filterMap fun e => if e.1.1 = id then some (e.1.2, e.2.length) else none
         (s, .parts (sortParts ps))
   | .completeMultipartUpload who b k u parts =>
+    -- a00e4e8: a request without a part list, or with an empty one, is refused before the upload is looked at
     match parts with
-    | none => (s, .err .InvalidPart)
+    | none => (s, .err .MalformedXML)
+    | some [] => (s, .err .MalformedXML)
     | some pl =>
       match u with
       | none => (s, .err .NoSuchUpload)
@@ -648,10 +662,15 @@ def step (H : Hashes) (dirLen : Nat) (s : State) : Op → State × Resp
           match objPath b k with
           | .error e => (s, .err e)
           | .ok (bd, p) =>
-            match completeParts id s.parts pl 0 with
-            | .error e => (s, .err e)
-            | .ok ps =>
-              if partTooSmall pl.length ps then (s, .err .EntityTooSmall)
+            -- the validation in passes (a00e4e8): numbers present, strictly ascending, part files exist, sizes
+            match partNumbers pl with
+            | none => (s, .err .MalformedXML)
+            | some ns =>
+            if outOfOrder ns then (s, .err .InvalidPartOrder)
+            else match partFiles id s.parts ns with
+            | none => (s, .err .InvalidPart)
+            | some ps =>
+              if partTooSmall ps then (s, .err .EntityTooSmall)
               -- b29f222: the bucket may have been deleted since the upload was created: `get_bucket_path(bucket)?.exists()` (it
               -- cannot fail where `get_object_path` succeeded); nothing is written then
               else if !alHas bd s.buckets then (s, .err .NoSuchBucket)
